@@ -292,7 +292,7 @@ static int g_mf_e;
 #define CANARY_FIT(m, e) (!((m) == 77.0 && (e) == 0))
 #define CANARY_P(p) ((p) == 7 || (p) == 21 || (p) == 300)
 #define CANARY_PREC(m) 0
-#define CANARY_EXIT(p) ((p) != 400 && (p) != -400 && (p) != 600 && (p) != 100)
+#define CANARY_EXIT(p) ((p) != 400 && (p) != -400 && (p) != 600 && (p) != 100 && (p) != 150 && (p) != 260)
 #else
 #define CANARY_TABLE(e) 1
 #define CANARY_FIT(m, e) 1
